@@ -77,11 +77,26 @@ class _Resp(object):
         return self._thunk()
 
 
+def _wire(u):
+    """u with the characters that may not appear in a URI percent-encoded (UTF-8); nothing else changes."""
+    out = []
+    for ch in u:
+        if ch in ' "<>\\^`{|}' or ord(ch) > 126 or ord(ch) < 33:
+            out.append("".join("%%%02X" % b for b in ch.encode("utf-8")))
+        else:
+            out.append(ch)
+    return "".join(out)
+
+
 class SimTransport(object):
     """One simulated network; owned by one resolver (or shared, if the scenario says so)."""
 
     def __init__(self, docs, plan=None, forbidden=()):
         self.docs = dict((norm(u), d) for u, d in docs.items())
+        # a server sees the wire form: a client may send characters that are illegal in a URI percent-encoded
+        # (space, non-ASCII, "<>{}|\\^`) - that is the same resource.  Existing %xx escapes and reserved characters
+        # are NOT touched (p%2Fq and p/q stay different resources).
+        self.alias = dict((_wire(u), u) for u in self.docs if _wire(u) != u)
         self.plan = dict((norm(u), dict(p)) for u, p in (plan or {}).items())
         self.forbidden = set(norm(u) for u in forbidden)
         self.calls = {}        # url -> number of calls so far
@@ -96,6 +111,9 @@ class SimTransport(object):
 
     def _enter(self, route, uri):
         u = norm(uri)
+        if u not in self.docs and u in self.alias:
+            u = self.alias[u]
+            self._fire("illegal_characters_arrived_percent_encoded")
         if u in self.forbidden:
             self.forbidden_hits.append((route, u))
         n = self.calls.get(u, 0)
@@ -204,9 +222,12 @@ class Router(object):
         import threading
         self.tls = threading.local()
         self.default = None
+        self.known = {}
+        self.sticky_reroutes = 0
 
     def set(self, transport):
         self.tls.t = transport
+        self.known[id(transport)] = transport
 
     def cur(self):
         t = getattr(self.tls, "t", None) or self.default
@@ -220,12 +241,43 @@ class Router(object):
     def requests_get(self, uri, *a, **k):
         return self.cur().requests_get(uri, *a, **k)
 
+    def session_get(self, session, uri, *a, **k):
+        """A request made through a requests.Session: the simulated server pins a session to the network view
+        (transport) that answered its first request and tells it so in a cookie - a sticky-version registry.  A
+        session object that outlives one resolver therefore drags the first resolver's documents along."""
+        t = self.cur()
+        pinned = self.known.get(session.cookies.get("dsim-sticky"))
+        if pinned is not None and pinned is not t:
+            self.sticky_reroutes += 1
+            t = pinned
+        session.cookies.setdefault("dsim-sticky", id(t))
+        return t.requests_get(uri, *a, **k)
+
     def install(self, with_requests):
         import jsonschema.validators as V
         V.urlopen = self.urlopen
         if with_requests:
+            router = self
             mod = types.ModuleType("requests")
-            mod.get = self.requests_get
+            mod.get = self.requests_get         # (a throw-away session per call: no state)
+
+            class Session(object):
+                def __init__(self):
+                    self.cookies = {}
+                    self.headers = {}
+
+                def get(self, uri, *a, **k):
+                    return router.session_get(self, uri, *a, **k)
+
+                def close(self):
+                    pass
+
+                def __enter__(self):
+                    return self
+
+                def __exit__(self, *exc):
+                    return False
+            mod.Session = mod.session = Session
             sys.modules["requests"] = mod
         else:
             sys.modules["requests"] = None
